@@ -401,8 +401,16 @@ func (m *monitor) recordAck(e *PendingLogEntry, idx, ts int64, src string, snap 
 
 // admitted records one addLeafToPool call and the source it reported.
 func (m *monitor) admitted(spec string, e *PendingLogEntry, src string) {
+	m.admittedIn(spec, e, src, true)
+}
+
+// admittedIn: live is false when the instance that took the submission had
+// already crashed (a harness thread that was parked inside addLeafToPool of an
+// instance that died meanwhile: no real process does that, and a dead
+// instance's cache says nothing about the live one's).
+func (m *monitor) admittedIn(spec string, e *PendingLogEntry, src string, live bool) {
 	m.mu.Lock()
-	if idx, ok := m.cached[entryKey(e)]; ok && m.trackCache && src == "sequencer" {
+	if idx, ok := m.cached[entryKey(e)]; ok && m.trackCache && live && src == "sequencer" {
 		m.w.violate("C07", "entry %s is in the deduplication cache (acknowledged at index %d in this cache lifetime) but its resubmission was admitted as a new leaf", spec, idx)
 	}
 	m.admissions = append(m.admissions, admission{spec, entryKey(e), e, src})
